@@ -872,6 +872,14 @@ func (pc *PartitionContext) tryPlaceholderAllocate() *objects.AllocationResult {
 			zap.String("appID", result.Request.GetApplicationID()),
 			zap.String("allocationKey", result.Request.GetAllocationKey()),
 			zap.String("placeholder released allocationKey", result.Request.GetRelease().GetAllocationKey()))
+		// the real allocation could have been reserved before the placeholder was allocated: it is no longer outstanding
+		if app := pc.getApplication(result.Request.GetApplicationID()); app != nil {
+			if nodeID := app.NodeReservedForAsk(result.Request.GetAllocationKey()); nodeID != "" {
+				if node := pc.GetNode(nodeID); node != nil {
+					pc.unReserve(app, node, result.Request)
+				}
+			}
+		}
 		// pass the release back to the RM via the cluster context
 		return result
 	}
